@@ -112,8 +112,12 @@ def _probes(records, d):
     for p in S.all_prefixes(records):
         cur += [p + d + "1", p.swapcase() + d + "1", p]
     cur += ["", d, "nodelim" if d not in "nodelim" else "x", "zz" + d + "1"]
+    # static part: the same strings are asked after EVERY step of a history (strings that a later step may start to
+    # recognise, or recognise through a longer prefix), so stale result caches / lazily built indexes become visible
+    cur += [p + d + "1" for p in FRESH_P if d not in p]
     uri = S.boundary_uri_probes(records, idents=("1",))
     uri += [u.swapcase() + "1" for u in S.all_uri_prefixes(records)] + ["", "zz"]
+    uri += [u + "1" for u in FRESH_U] + [u + "x_1" for u in FRESH_U[:2]]
     return list(dict.fromkeys(cur)), list(dict.fromkeys(uri))
 
 
